@@ -56,9 +56,6 @@ Fixpoint pbind {A B} (p : prog A) (f : A -> prog B) : prog B :=
   | NoFuel => NoFuel
   end.
 
-Notation "x <- p ;; q" := (pbind p (fun x => q))
-  (at level 200, p at level 100, q at level 200, right associativity, only parsing).
-
 (* little-endian value of a byte list *)
 Fixpoint le_value (l : bytes) : N :=
   match l with [] => 0 | b :: r => b + 256 * le_value r end.
